@@ -5,6 +5,22 @@ use super::{
 };
 
 impl DeclarationElsewhere {
+    /// Whether following this type reference from alias to alias never
+    /// arrives at a definition that is not itself a type reference
+    pub fn is_cyclic(&self, tlds: &BTreeMap<String, ToplevelDefinition>) -> bool {
+        let mut identifier = &self.identifier;
+        for _ in 0..=tlds.len() {
+            match tlds.get(identifier) {
+                Some(ToplevelDefinition::Type(ToplevelTypeDefinition {
+                    ty: ASN1Type::ElsewhereDeclaredType(e),
+                    ..
+                })) => identifier = &e.identifier,
+                _ => return false,
+            }
+        }
+        true
+    }
+
     pub fn root<'a>(
         &self,
         tlds: &'a BTreeMap<String, ToplevelDefinition>,
